@@ -69,7 +69,7 @@ func (n *VariablePatternDeclarationNode) String() string {
 	buff.WriteString("var ")
 	buff.WriteString(n.Pattern.String())
 	buff.WriteString(" = ")
-	buff.WriteString(n.Initialiser.String())
+	writeExpressionWithoutModifier(&buff, n.Initialiser)
 
 	return buff.String()
 }
